@@ -624,6 +624,8 @@ def _refine(ctx, fn, si, test, truth, flags):
             and isinstance(test.left.value, ast.Name) and norm(test.left.slice) in ("-1", "0", "-1:", ":1"):
         var = test.left.value.id
         cur = si.vars.get(var)
+        if isinstance(cur, AStr) and cur.maybe_empty and norm(test.left.slice) in ("-1", "0"):
+            si.problems.append(f"`{norm(test.left)}` is evaluated while `{var}` may be empty (IndexError)")
         comp = test.comparators[0]
         elts = comp.elts if isinstance(comp, (ast.Tuple, ast.List, ast.Set)) else [comp]
         if isinstance(cur, AStr) and all(isinstance(e, ast.Constant) and isinstance(e.value, str) and len(e.value) == 1 for e in elts):
@@ -640,10 +642,12 @@ def _refine(ctx, fn, si, test, truth, flags):
         return
 
 
-def _interp_path(ctx, fn, p, inputs, flags):
+def _interp_path(ctx, fn, p, inputs, flags, problems_out=None):
     """run the abstract string interpreter along one symexec path; returns (AStr|None for the returned
     value, problems)"""
     si = StrInterp(ctx, fn, inputs)
+    if problems_out is not None:
+        si.problems = problems_out
     import re as _re
     for s in p.steps:
         st = s.ast
@@ -706,8 +710,11 @@ def rule_N4(ctx):
             if len(alts) == 1:
                 facts |= set(alts[0])
         is_dir = ("truthy(is_file)", False) in facts
-        r = _interp_path(ctx, me, p, {pname: AStr()}, {"is_file"})
+        probs_ = []
+        r = _interp_path(ctx, me, p, {pname: AStr()}, {"is_file"}, probs_)
         key = p.cond_key()[:150]
+        ctx.ob("N4", p.ret_node, "make_export_name never indexes into a name that may be empty (any stored name - blank, all punctuation - gets a name, not an error)",
+               not probs_, "" if not probs_ else probs_[0], inst=f"export-index:{key}")
         if r is None:
             ctx.ob("N4", p.ret_node, "the returned export name is derived from the stored name by recognised sanitising steps", False,
                    f"value returned on [{key}] cannot be followed through the sanitising steps", inst=f"export:{key}")
@@ -1148,6 +1155,17 @@ def _chain_climb(ctx, fn, rule):
     if not early_ok:
         out["problems"].append("an early return is taken for an element that has a path")
     return out
+
+def rule_N4i(ctx):
+    """the never-raises part of N4 (C14): naming an element whose stored name is damaged to nothing file-name-safe must not raise -
+    the naming routines run over all children of a directory, so one such name would take the whole directory down"""
+    before = len(ctx.obs)
+    rule_N4(ctx)
+    keep = [o for o in ctx.obs[before:] if o.inst.startswith(("export-index:", "export-nonempty:"))]
+    for o in keep:
+        o.rule = "N4i"
+    ctx.obs[before:] = keep
+
 
 # ------------------------------------------------------------------------ N5
 def rule_N5(ctx):
